@@ -20,7 +20,7 @@ from dtsim import core, render
 from dtsim.core import EXIT_HARNESS, EXIT_OK, EXIT_VIOLATION, Chooser, HarnessError
 
 COMPACT_W = float(os.environ.get("DTSIM_COMPACT_W", "1"))
-PRELUDE = "from typing import *\nimport typing\nimport os\n"
+PRELUDE = "from typing import *\nimport typing\nimport os\nfrom pathlib import Path\nfrom decimal import Decimal\n"
 
 
 # ------------------------------------------------------------------------------ corpus
@@ -36,6 +36,16 @@ def add_computed_default(ch, label, desc, p_=0.15):
         p["default"] = {"code": ch.choice(label + ".computedexpr", {"int": ["os.cpu_count()", "2 ** 10", "len('abc')"], "str": ["os.getcwd()", "os.path.join('a', 'b')", "'x' * 3"],
                                                                    "float": ["1 / 3", "float('inf')"], "bool": ["not False", "bool(os.sep)"]}.get(base, ["os.environ.get('HOME')"]))}
         p["computed"] = True
+
+
+def add_named_type(ch, label, desc, p_=0.12):
+    """A required parameter whose type is a class named by a plain identifier (Path, Decimal): neither a scalar nor a typing
+    construct.  The same few names recur across jobs, so that what one conversion does with such a type can meet another."""
+    if desc["params"] and ch.chance(label + ".namedtype", p_):
+        p = desc["params"][0]
+        p["typ"] = ch.choice(label + ".namedtypev", ["Path", "Path", "Decimal"])
+        p["default"] = None
+        p.pop("computed", None)
 
 
 def spice_names_and_prose(ch, label, desc):
@@ -57,6 +67,7 @@ def gen_fn_job(ch, jid, label, allow_stale_docs=False):
     in or out of signature order."""
     desc = render.gen_desc(ch, "conservative" if ch.chance(label + ".prof", 0.7) else "wide", 1, 6, label)
     spice_names_and_prose(ch, label, desc)
+    add_named_type(ch, label, desc)
     # python needs non-defaulted positionals first: gen_desc guarantees it
     names = [p["name"] for p in desc["params"]]
     mode = ch.weighted(label + ".docmode", [("all", 2), ("some", 5), ("none", 1.5), ("shuffled", 2)])
@@ -216,6 +227,7 @@ def gen_hop_job(ch, jid, label):
     desc["returns"] = None
     add_computed_default(ch, label, desc)
     spice_names_and_prose(ch, label, desc)
+    add_named_type(ch, label, desc, 0.2)
     a = ch.choice(label + ".a", ["class", "function", "argparse"])
     b = ch.choice(label + ".b", ["class", "function", "argparse", "docstring_rest", "docstring_numpydoc", "docstring_google"])
     names = [p["name"] for p in desc["params"]]
@@ -236,6 +248,7 @@ def gen_hop_group(ch, jid0, label):
     desc = render.gen_desc(ch, "conservative", 1, 4, label)
     desc["returns"] = None
     add_computed_default(ch, label, desc)
+    add_named_type(ch, label, desc, 0.2)
     a = ch.choice(label + ".a", ["class", "function", "function", "argparse"])
     names = [p["name"] for p in desc["params"]]
     if a == "class":
